@@ -34,10 +34,13 @@ CHECKS = {
         text=("C02_delivery (a completed 6xx message reaches exactly the listeners registered at that moment, in order, once each, for EVERY "
               "assignment of listener behaviours incl. raise/unsubscribe/subscribe during delivery), C02_nobody_else, C02_event_lines_silent + "
               "C02_event_inert (no event line reaches a per-line callback or resolves/advances anything, whatever is in flight), "
+              "C02_event_message_inert + C02_erasure (Props/C02b: a WHOLE 6xx message of any shape — continuation lines, data blocks — received between two "
+              "messages leaves the entire state as it was and emits only listener calls; inserting it anywhere into any session changes nothing else), "
               "C02_setevents_add/remove (a SETEVENTS is submitted exactly when the set of names with listeners changes and lists exactly them), "
               "on top of C01's refinement and invariants. Correspondence: sessions with the three event wire forms in every queue state and "
               "scripted listener behaviours against the real protocol."),
-        note=CTL_NOTE + "Session-level erasure of events (non-interference over whole runs) is stated per step (C02_event_lines_silent, C02_event_inert), not as one run-level theorem.",
+        note=CTL_NOTE + "Session-level erasure is proved on the typed-line spec for listeners that only return or raise (C02_erasure); it carries over to the byte-level model "
+             "through C01_refines on well-formed sessions. Listeners that (un)subscribe during delivery change the SETEVENTS traffic by design and are covered by C02_delivery / C02_setevents_*.",
         technique="Lean 4: theorems on the shared queue layer for all listener-action assignments + line-machine refinement; differential correspondence",
         ref='§4 C02'),
     'C03': dict(
